@@ -75,12 +75,13 @@ def ob_decode(names, dname):
     return f
 
 
-def ob_mismatch(n_obj, n_w, dname):
-    """objective/weight count mismatch is rejected"""
+def ob_mismatch(n_obj, n_w, dname, empty_list=False):
+    """objective/weight count mismatch is rejected (empty_list: objective_weights=[] is a list of zero weights, not
+    'no weights')"""
     def f():
         with env():
             F = [sym.real(f"F{j}") for j in range(n_obj)]
-            w = [sym.real(f"w{j}", lo=0.0) for j in range(n_w)] if n_w else None
+            w = [sym.real(f"w{j}", lo=0.0) for j in range(n_w)] if (n_w or empty_list) else None
             ret = list(F) if n_obj else sym.real("F")          # n_obj == 0: a scalar-valued objective
             t = make_task([cont()], lambda x, i: ret, minmax=DIRS[dname], weights=w)
             o = Scripted(config())
@@ -152,6 +153,8 @@ def obligations(tier):
                               ob_cost(names, "base", d, n_obj, wmode), 200))
         for (k, j) in ((0, 2), (0, 3), (2, 0), (2, 1), (2, 3), (3, 2), (1, 2), (3, 0)):
             obs.append(Ob(f"mismatch[obj={k},w={j},{d}]", ob_mismatch(k, j, d), 60))
+        for k in (0, 1, 2):
+            obs.append(Ob(f"mismatch[obj={k},w=[],{d}]", ob_mismatch(k, 0, d, empty_list=True), 60))
     import itertools
     lists = list(LISTS_Q)
     if th:
